@@ -203,9 +203,10 @@ def gen(rng, tier, shape=None):
     approved = sorted(c for c in common.CATS if rng.random() < 0.5) if rng.random() < 0.3 else list(flags)
     case = {"sites": sites, "tests": tests, "flags": flags, "approved": approved, "ncs": ncs,
             "orders": ncs == 0 and rng.random() < (0.15 if tier == "quick" else 0.25)}
-    if rng.random() < 0.12:
+    if rng.random() < 0.15:
         # an unrelated comparison that raises (C14 / C18: nothing of it may leak into the other call sites)
-        case["disturb"] = {"kind": rng.randrange(len(DISTURB)), "test": rng.randrange(ntests), "orders": False}
+        kinds = [k for k, d in enumerate(DISTURB) for _ in range(4 if d.startswith("LOOP ") else 1)]
+        case["disturb"] = {"kind": rng.choice(kinds), "test": rng.randrange(ntests), "orders": False}
         case["orders"] = False
     return case
 
@@ -279,6 +280,13 @@ DISTURB = [
     "assert snapshot(dict(k=1))['k'] == 1",
     "assert snapshot({**{'a': 1}, 'k': 5})['a'] == 1",
     "assert snapshot([5, 6])[0] == 5",
+    # the same call compared twice: the first comparison raises part-way through (after a change was already computed),
+    # the second one completes
+    "LOOP ({'a': 5, 'b': Item_()}, {'a': 5, 'b': 2}) == snapshot({'a': 1, 'b': 2})",
+    "LOOP ([5, Item_()], [5, 2]) == snapshot([1, 2])",
+    "LOOP ({'k': [5, Item_()]}, {'k': [5, 3]}, {'k': [5, 3]}) == snapshot({'k': [1, 2]})",
+    "LOOP (Item_(), 4, 3) <= snapshot(5)",
+    "LOOP (Item_(), 4, 3) in snapshot([5])",
 ]
 DISTURB_DEF = """
 class Item_:
@@ -356,7 +364,13 @@ def render(case):
         lines.append("")
         boundaries.append(len(events))
     if dist:
-        lines.append(DISTURB_DEF % DISTURB[dist["kind"]])
+        d = DISTURB[dist["kind"]]
+        if d.startswith("LOOP "):
+            vals, rest = d[5:].split(") ", 1)
+            lines.append(DISTURB_DEF.replace("    try:\n        %s\n    except Exception:\n        pass\n",
+                                             "    for v_ in %s):\n        try:\n            v_ %s\n        except Exception:\n            pass\n" % (vals, rest)))
+        else:
+            lines.append(DISTURB_DEF % d)
     return "\n".join(lines) + "\n", events, boundaries
 
 
@@ -496,7 +510,10 @@ def compare(case, obs, model_out):
                     props |= {"C06", "C02", "C07"} if not case["flags"] else {"C02", "C07"}
         diffs.append(("results", sorted(props), f"model {sx(mres)} impl {sx(ires)}"))
     # counters after every test
+    dist_test = (case.get("disturb") or {}).get("test")
     for t, o in enumerate(outs):
+        if t == dist_test:
+            continue                 # the unrelated comparisons of the disturbance count into this test's counters
         mc = [int(o[2][1]), int(o[2][2])]
         it = obs["tests"][t] if t < len(obs["tests"]) else None
         ic = [it["missing"], it["incorrect"]] if it else None
@@ -677,6 +694,8 @@ def oracle(case, obs):
         if not ok:
             wrong_in_test.setdefault(t, f"site {k} key {key!r}: {x!r} {op} {sv!r} fails")
     for t, info in enumerate(obs["tests"]):
+        if t == (case.get("disturb") or {}).get("test"):
+            continue                 # counters of this test include the disturbance's own comparisons
         nz = info["missing"] != 0 or info["incorrect"] != 0
         if t in wrong_in_test and not nz and info["raised"] is None:
             fails.append(("C07", "never_green", f"test_{t} flags={sorted(flags)}: {wrong_in_test[t]} but both counters are 0"))
